@@ -134,6 +134,10 @@ class C17(Prop):
                 for r in sc["rows"]:
                     if r[0] == "F" and r[3] - r[2] > 600:
                         r[3] = r[2] + 600
+                # every other case: the first record BEGINS with a run of N (its cached .agp begins with a gap
+                # line; a cache that loses it shifts every Pretext coordinate on a warm run)
+                if i % 2 == 0 and sc is inp["scaffolds"][0] and sc["rows"][0][0] == "F":
+                    sc["rows"].insert(0, ["G", rng.choice([8, 30]), "scaffold"])
                 # re-tile scaffold coordinates after shortening
                 pos = 0
                 for r in sc["rows"]:
@@ -177,8 +181,9 @@ class C17(Prop):
             lines.append(f">{sc['name']}\n" + "".join(seq[i : i + 60] + "\n" for i in range(0, len(seq), 60)))
         # one more record, not shown in the map: N runs that END exactly at a line end (where the
         # indexer flushes its buffer) followed by a line that begins with sequence, and N runs that fill lines
+        # (the record also ENDS with N: its cached .agp ends with a gap line)
         al = ("".join(r.choices("ACGT", k=60)) + "".join(r.choices("ACGT", k=35)) + "N" * 25 + "".join(r.choices("ACGT", k=60))
-              + "N" * 60 + "".join(r.choices("ACGT", k=50)) + "N" * 10 + "".join(r.choices("ACGT", k=17)))
+              + "N" * 60 + "".join(r.choices("ACGT", k=50)) + "N" * 10 + "".join(r.choices("ACGT", k=17)) + "N" * 4)
         lines.append(">aligned_runs\n" + "".join(al[i : i + 60] + "\n" for i in range(0, len(al), 60)))
         (d / "in.fa").write_bytes("".join(lines).replace("\n", "\r\n" if case.get("crlf") else "\n").encode())
         ptx = case["pretext"]
@@ -248,7 +253,9 @@ class C17(Prop):
             with (ind / "asm.tpf").open("w") as fh:
                 format_tpf(parse_agp(cache.open(), "x"), fh)
             res["agp2agp"] = variant("agp2agp", 0, False, "asm.agp", "x.agp", True)
-            res["tpf2agp"] = variant("tpf2agp", 5, False, "asm.tpf", "x.agp", True)
+            # (TPF cannot carry a scaffold that begins with a gap)
+            if not any(sc["rows"][0][0] == "G" for sc in case["input"]["scaffolds"]):
+                res["tpf2agp"] = variant("tpf2agp", 5, False, "asm.tpf", "x.agp", True)
         # in process, after other invocations
         od = root / "inproc"
         od.mkdir()
@@ -334,6 +341,8 @@ class C17(Prop):
         if "agp2agp" in obs and base["rc"] == 0:
             ref = obs["fa2agp"]
             for k in ("agp2agp", "tpf2agp"):
+                if k not in obs:
+                    continue
                 v = obs[k]
                 if v["rc"] != ref["rc"]:
                     return f"exit status differs between FASTA input and {k}"
